@@ -19,16 +19,22 @@ Theorem C05_set_core_wf (x : obj) k c old id :
   wf_obj (mkObj cs' (fttm x) fM' fN' (fR x) (if fttm x then ShM (combine fM' fN') else ShT fN')) = true.
 Proof. exact (set_core_wf x k c old id). Qed.
 
+(* reduce_dims(exclude), shape level: for every well formed object and every exclusion list the surviving cores chain,
+   keep the boundary ranks 1 and the kind (left / right absorption, carries across several removed cores, everything removed) *)
+Theorem C05_rd_sh_wf (x : obj) excl : wf_obj x = true -> wf_sh (fttm x) (rd_sh 0 (shapes x) None [] excl) = true.
+Proof. exact (rd_sh_wf x excl). Qed.
+
 (* one call (any of: + - * ** @ t scalar clone to_ttm round/rerank, any constructor / factory / solver result,
-   set_core, reduce_dims) keeps every object of the pool well formed *)
-Theorem C05_step_wf st c : WFpool st -> reduce_ok st c = true -> WFpool (step st c).
-Proof. exact (step_wf st c). Qed.
+   set_core, reduce_dims) keeps every object of the pool well formed - no side condition *)
+Theorem C05_step_wf st c : WFpool st -> WFpool (step st c).
+Proof. exact (step_wf_all st c). Qed.
 
 (* any finite sequence of calls, starting from nothing: every object in existence is well formed *)
-Theorem C05_reachable_wf cs : run_ok init cs -> WFpool (run init cs).
-Proof. exact (reachable_wf cs). Qed.
+Theorem C05_reachable_wf cs : WFpool (run init cs).
+Proof. exact (reachable_wf_all cs). Qed.
 
 Print Assumptions C05_ctor_wf.
 Print Assumptions C05_set_core_wf.
+Print Assumptions C05_rd_sh_wf.
 Print Assumptions C05_step_wf.
 Print Assumptions C05_reachable_wf.
